@@ -273,6 +273,15 @@ where
             .ok_or(PlanningError::PlannerUninitialised)?;
         let goal = &pd.goal;
 
+        // Both tree roots end up on the returned path: a start state the checker rejects is
+        // reported, and an invalid sampled goal state cannot be connected to.
+        if !vc.is_valid(&pd.start_states[0]) {
+            return Err(PlanningError::InvalidStartState);
+        }
+        if !vc.is_valid(&self.goal_tree[0].state) {
+            return Err(PlanningError::NoSolutionFound);
+        }
+
         // Main loop
         loop {
             // 1. Check for timeout
